@@ -69,6 +69,7 @@ fn mpq_seeds() -> Vec<seeds::Seed> {
                 seed: i as u32,
                 method: [M_ZLIB, M_NONE, M_BZIP2, M_SPARSE, M_LZMA][i],
                 enc: if enc && i % 2 == 1 { Enc::FixKey } else { Enc::None },
+                locale: 0,
             })
             .collect()
     };
